@@ -136,7 +136,11 @@ fn cmd_check(id: &str, tier: &str) -> i32 {
     let mut violations_total = 0i64;
     let mut known_hits: BTreeMap<String, u64> = BTreeMap::new();
 
+    let only_family = std::env::var("VERIF_FAMILY").ok();
     for fam in &p.families {
+        if matches!(&only_family, Some(f) if f != fam.scenario.name()) {
+            continue;
+        }
         let share = Duration::from_millis(total_budget * 1000 * fam.weight as u64 / weight_sum as u64);
         let sc = fam.scenario.as_ref();
         let fam_seed = seed ^ tape::Rng::new(hash_str(sc.name())).next_u64();
@@ -150,7 +154,7 @@ fn cmd_check(id: &str, tier: &str) -> i32 {
                 max_wall: share,
             },
             threads,
-            &move |v: &Violation| known_match(&kn, &pid, v).is_some(),
+            &move |v: &Violation| known_match(&kn, &pid, v).map(|k| format!("{} {}", k.oracle, k.what)),
         );
         total_runs += rep.runs;
         sim_time += rep.sim_time_us;
@@ -192,9 +196,12 @@ fn cmd_check(id: &str, tier: &str) -> i32 {
             }
             // Minimise, then write the replay file
             let shrink_budget = Duration::from_secs(if tier == "thorough" { 120 } else { 45 });
-            let small = runner::shrink(sc, *vseed, tp.clone(), &v.oracle, shrink_budget);
+            let kn2 = known.clone();
+            let pid2 = p.id.to_string();
+            let is_known = move |x: &Violation| known_match(&kn2, &pid2, x).is_some();
+            let small = runner::shrink(sc, *vseed, tp.clone(), &v.oracle, shrink_budget, &is_known);
             let r = runner::execute(sc, *vseed, Tape::replay(small.clone()), true);
-            let (fv, tape_used) = match r.outcome.violations.iter().find(|x| x.oracle == v.oracle) {
+            let (fv, tape_used) = match r.outcome.violations.iter().find(|x| x.oracle == v.oracle && !is_known(x)) {
                 Some(x) => (x.clone(), small),
                 None => {
                     // Shrinking lost it (should not happen): fall back to the original tape
